@@ -14,22 +14,31 @@ EXTENDS Perms, Json
 CONSTANTS TraceFile
 Trace == ndJsonDeserialize(TraceFile)
 
-VARIABLES l, cfg, bad
-vars == <<l, cfg, bad>>
+VARIABLES l, cfg, bad,
+          free        \* the current configuration came from a configuration file (its order is chosen by TLC)
+vars == <<l, cfg, bad, free>>
 Ev == Trace[l]
 Is(name) == l <= Len(Trace) /\ Ev.ev = name /\ l' = l + 1
 
-Init == l = 1 /\ cfg = <<>> /\ bad = {} /\ TLCSet(1, 1)
-Config == Is("Config") /\ cfg' = Ev.cfg /\ UNCHANGED bad
+Init == l = 1 /\ cfg = <<>> /\ bad = {} /\ free = FALSE /\ TLCSet(1, 1)
+\* A Config line of a run against the real binary says unordered = TRUE: the entries reached the program through its configuration
+\* file, so it scans them in SOME order (Perms!Orders) that stays the same until the next Config line.  TLC picks the order; the
+\* run is explained if one order explains every operation of it (the branch that reaches the end of the trace), which is why for
+\* such runs "served only if allowed" is a guard of the step and not an entry of `bad`.
+Unordered(e) == "unordered" \in DOMAIN e /\ e.unordered
+Config == /\ Is("Config")
+          /\ IF Unordered(Ev) THEN cfg' \in Orders(Ev.cfg) /\ free' = TRUE ELSE cfg' = Ev.cfg /\ free' = FALSE
+          /\ UNCHANGED bad
 Op == /\ Is("Op")
-      /\ bad' = bad \cup (IF Ev.served /\ ~Decide(cfg, Ev.client, Ev.wallet, Ev.account, Ev.op) THEN {<<"served", l>>} ELSE {})
+      /\ free => (Ev.served => Decide(cfg, Ev.client, Ev.wallet, Ev.account, Ev.op))
+      /\ bad' = bad \cup (IF ~free /\ Ev.served /\ ~Decide(cfg, Ev.client, Ev.wallet, Ev.account, Ev.op) THEN {<<"served", l>>} ELSE {})
                     \cup (IF ~Ev.served /\ Ev.changed THEN {<<"changed", l>>} ELSE {})
-      /\ UNCHANGED cfg
-Other == l <= Len(Trace) /\ Ev.ev \notin {"Config", "Op"} /\ l' = l + 1 /\ UNCHANGED <<cfg, bad>>
+      /\ UNCHANGED <<cfg, free>>
+Other == l <= Len(Trace) /\ Ev.ev \notin {"Config", "Op"} /\ l' = l + 1 /\ UNCHANGED <<cfg, bad, free>>
 Next == Config \/ Op \/ Other
 Spec == Init /\ [][Next]_vars
 HighWater == TLCSet(1, IF l > TLCGet(1) THEN l ELSE TLCGet(1))
-Accepted == TLCGet(1) = Len(Trace) + 1
+Accepted == IF TLCGet(1) = Len(Trace) + 1 THEN TRUE ELSE PrintT(<<"HIGHWATER", TLCGet(1)>>) /\ FALSE
 ServedOnlyIfAllowed == \A b \in bad : b[1] # "served"
 RefusedNoChange == \A b \in bad : b[1] # "changed"
 =============================================================================
